@@ -4,9 +4,12 @@ Engine E3 (net), shared HTTP harness.  1-6 pipelined requests (some with
 Content-Length or chunked bodies) reach a real HTTPChannel in tape-chosen
 pieces.  Per request the application finishes at once, writes/finishes at later
 tape-chosen steps (directly or through a registered push producer), or never
-finishes; it asks for 1-3 notifyFinish() Deferreds per request (all before the
-response finishes or the connection is lost), some of them from inside the
-callback of another request's notification.  Requests are HTTP/1.1 or (a few)
+finishes; it asks for 1-3 notifyFinish() Deferreds per request before the
+response finishes or the connection is lost, and for further ones from inside
+notification callbacks/errbacks (nesting depth up to 3): of the request that is
+unfinished at that moment, or of the very request whose Deferreds are being
+fired right now (a layered application whose "response is over" handler tears
+down an inner layer that registers its own notifyFinish() helper).  Requests are HTTP/1.1 or (a few)
 HTTP/1.0 and may carry Connection tokens (close, keep-alive, any case, lists), so
 that the server itself ends the connection after some responses.  The transport
 has a small send buffer and the client reads at tape-chosen times (producer
@@ -22,8 +25,10 @@ Oracle: (1) when request k+1 is handed to the application, request k's finish()
 has been called and the bytes written so far parse as exactly k complete
 responses; (2) the wire is the responses in request order, each body intact;
 (3) every notifyFinish Deferred fires exactly once: None at finish, a Failure at
-connection loss, never both, none left by the end; (4) nothing reaches the
-transport after connectionLost.
+connection loss, never both, none left by the end - including every Deferred that
+was obtained while the Deferreds of its request were being fired (it belongs to a
+request whose response finishes / whose connection is lost in that very pass);
+(4) nothing reaches the transport after connectionLost.
 """
 from twisted.python.failure import Failure
 
@@ -49,13 +54,20 @@ RULE = ("run = 1-6 pipelined requests delivered in tape-chosen pieces, interleav
         "5 s / 60 s / none) and, in 60% of the runs, a connection loss at a tape-chosen event boundary; every run ends with the connection going away; "
         "requests are HTTP/1.1 or (last: 15%, others: 3%) HTTP/1.0 and carry a Connection header (close / keep-alive in any case, comma lists) with "
         "p=0.25 (last) / 0.06 (others); in 25% of the runs the transport reports a loss synchronously from inside loseConnection()/abortConnection(); "
-        "30% of the notification callbacks ask for another notifyFinish() from inside the callback (of the request that is unfinished at that moment: "
-        "full verdict; of the same request: see ASSUMPTIONS); "
+        "30% of the notification callbacks/errbacks ask for another notifyFinish() from inside the callback, and 45% of the callbacks of such Deferreds do so "
+        "again (nesting depth <= 3): of the request that is unfinished at that moment, else of the same request, i.e. while that request's Deferreds are "
+        "being fired because its response finished / its connection was lost (full verdict for both: fires exactly once, None / failure as the pass); "
         "non-trivial = at least two requests reached the application, or one did and the connection was lost while its response was unfinished")
-ASSUMPTIONS = ["notifyFinish() is requested before the response finishes or the connection is lost (later requests get no verdict)",
-               "a notifyFinish() requested from inside a notification callback of the SAME request is such a later request (the callback runs after "
-               "finish()/connectionLost has taken effect: Request.finished / _disconnected are already set, the next pipelined request may already "
-               "have been handed over): no verdict on whether it fires; if it fires, it must fire once and with the matching result",
+ASSUMPTIONS = ["notifyFinish() is requested before the response finishes or the connection is lost, or WHILE the Deferreds of that request are being fired "
+               "(from inside a callback/errback of one of them, any nesting depth): such a Deferred is a notifyFinish Deferred of a request whose response "
+               "finishes / whose connection is lost in that very pass, so it must fire exactly once with the outcome of the pass.  Verified on the "
+               "unchanged tree for every path the workload reaches: finish() of a persistent request (next pipelined request handed over before the pass), "
+               "of a non-persistent / HTTP/1.0 request (channel closes; also with the loss reported inside loseConnection(), where the finished request "
+               "has already left the channel and its pass still reports None), connection loss with the response in progress and with input undelivered "
+               "(a loss reported inside the close request of an idle time-out meets no request that reached the application: the time-out is "
+               "suspended while a request is being handled)",
+               "a notifyFinish() requested AFTER that pass is over (finish() has returned / connectionLost has returned) is outside the statement and is "
+               "never made by the workload (the unchanged tree leaves it unfired)",
                "how many of the pipelined requests are served after a request that allows the server to close (HTTP/1.0, Connection: close) is not "
                "part of the statement: only requests that reached the application are judged",
                "the application does not call finish() on a request whose notifyFinish already failed (documented to raise); it may still call write()",
@@ -65,6 +77,7 @@ cleanup = H.cleanup
 BEHAVIOURS = ["sync", "later", "producer", "never", "later"]
 # request-side Connection header values: the close / keep-alive options in any case, alone and in comma lists
 CONN_VALUES = [b"close", b"keep-alive", b"Close", b"Keep-Alive", b"CLOSE", b"KEEP-ALIVE", b"keep-alive, close", b"close, TE", b"TE, keep-alive"]
+NEST_MAX = 3     # a notification callback may ask for another notification, whose callback may again ... up to this depth
 PAYLOADS = [b"", b"hello", b"x" * 40, b"\r\n0\r\n\r\n", b"HTTP/1.1 200 OK\r\n\r\n", b"y" * 9]
 
 
@@ -77,7 +90,7 @@ class Rec:
         self.finished = False      # finish() returned
         self.lost = False          # connection lost while unfinished
         self.notes = []            # one list of observed results per notifyFinish Deferred
-        self.renotes = []          # same, for Deferreds requested from inside a notification callback of this very request (no verdict on firing)
+        self.renotes = []          # same, for Deferreds requested from inside a notification callback/errback of this very request, i.e. while its Deferreds are being fired
 
 
 def run(sim):
@@ -141,23 +154,35 @@ def run(sim):
     def full_body(idx):
         return b"%d:" % idx + b"".join(plans[idx]["pieces"])
 
-    def add_note(rec, req, same_request_reentrant=False):
+    def add_note(rec, req, same_request_reentrant=False, depth=0):
         seen = []
         (rec.renotes if same_request_reentrant else rec.notes).append(seen)
         # decided when the Deferred is requested (a pure function of the tape): does its callback ask for another notification?
-        again = not same_request_reentrant and sim.draw_bool(0.3, "notify-from-callback")
+        # (depth = how many notification callbacks this request is nested in; bounded, so that chains end)
+        again = depth < NEST_MAX and sim.draw_bool(0.3 if depth == 0 else 0.45, "notify-from-callback")
         with sim.guard("notifyFinish-raised", "call"):
             d = req.notifyFinish()
 
-        def from_callback():
-            """The application asks for a notification from inside a notification callback: of the request that is unfinished right
-            now (within the statement: full verdict), else of this very request (a late request: no verdict on firing)."""
+        def from_callback(kind):
+            """The application asks for a notification from inside a notification callback/errback: of the request that is unfinished
+            right now, else of this very request - whose Deferreds are being fired at this moment (the pass that reports the end of its
+            response is running: this callback is part of it), so the new Deferred is due in the same pass with the same outcome."""
             if not state["lost"] and active and active[0][0] is not rec and not active[0][0].finish_called:
                 sim.probe("notify_requested_in_callback_for_unfinished_request")
-                add_note(active[0][0], active[0][1])
+                add_note(active[0][0], active[0][1], False, depth + 1)
             else:
                 sim.probe("notify_requested_in_callback_of_same_request")
-                add_note(rec, req, True)
+                sim.probe("notify_requested_while_%s_pass_runs" % kind)
+                if kind == "finish" and state["lost"]:
+                    sim.probe("notify_requested_while_finish_pass_runs_after_loss_inside_close_request")
+                if depth + 1 >= 2:
+                    sim.probe("notify_requested_in_callback_nested_%d_deep" % (depth + 1))
+                add_note(rec, req, True, depth + 1)
+
+        def in_callback(kind):
+            # the application code of this notification callback/errback
+            if again:
+                from_callback(kind)
 
         def cb(result):
             seen.append("ok" if result is None else "value")
@@ -165,8 +190,7 @@ def run(sim):
             sim.check("notify-twice", len(seen) == 1, "callback", "request %d deferred fired %r" % (rec.idx, seen))
             sim.check("notify-none-without-finish", rec.finish_called and not rec.lost, "callback",
                       "request %d: fired None, finish_called=%s lost=%s" % (rec.idx, rec.finish_called, rec.lost))
-            if again:
-                from_callback()
+            in_callback("finish")
 
         def eb(f):
             seen.append("err" if isinstance(f, Failure) else "err?")
@@ -176,8 +200,7 @@ def run(sim):
             # channel itself causes (and hears about) while it completes a finished response does not interrupt that response
             sim.check("notify-failure-without-loss", state["lost"] and rec.lost and not rec.finished, "errback",
                       "request %d: failed with %r, lost=%s (before its finish(): %s) finished=%s" % (rec.idx, f, state["lost"], rec.lost, rec.finished))
-            if again:
-                from_callback()
+            in_callback("loss")
 
         d.addCallbacks(cb, eb)
 
@@ -194,6 +217,9 @@ def run(sim):
         rec.finished = True
         sim.check("notify-on-finish", all(n == ["ok"] for n in rec.notes), "after-finish",
                   lambda: "request %d: finish() returned, notifyFinish results %r" % (rec.idx, rec.notes))
+        # the pass that fires this request's Deferreds is over: whatever was requested while it ran has fired in it
+        sim.check("notify-on-finish", all(n == ["ok"] for n in rec.renotes), "requested-during-notification",
+                  lambda: "request %d: finish() returned, results of notifyFinish() requested from inside its notification callbacks %r" % (rec.idx, rec.renotes))
 
     def app_step():
         rec, req, rest, prod = active[0]
@@ -276,6 +302,9 @@ def run(sim):
             if not rec.finished:
                 sim.check("notify-on-loss", all(n == ["err"] for n in rec.notes), "after-loss",
                           lambda: "request %d unfinished at connection loss, notifyFinish results %r" % (rec.idx, rec.notes))
+                sim.check("notify-on-loss", all(n == ["err"] for n in rec.renotes), "requested-during-notification",
+                          lambda: "request %d unfinished at connection loss, results of notifyFinish() requested from inside its notification "
+                                  "errbacks %r" % (rec.idx, rec.renotes))
         # a naive application keeps writing: must be ignored silently and never reach the transport
         for rec, req, rest, prod in active:
             with sim.guard("write-after-loss-raised", "write"):
@@ -351,10 +380,10 @@ def run(sim):
         want = ["ok"] if rec.finished else ["err"]
         sim.check("notify-count", all(n == want for n in rec.notes), "finished" if rec.finished else "lost",
                   lambda: "request %d (finished=%s): notifyFinish results %r" % (rec.idx, rec.finished, rec.notes))
-        # requested from inside a notification callback of the same request: may stay unfired (late request), else as above
-        sim.check("notify-count", all(n in ([], want) for n in rec.renotes), "requested-in-own-callback",
-                  lambda: "request %d (finished=%s): results of notifyFinish() requested in its own notification callback %r" % (rec.idx, rec.finished, rec.renotes))
-        if any(rec.renotes):
+        # requested from inside a notification callback/errback of the same request (while its Deferreds were being fired): as above
+        sim.check("notify-count", all(n == want for n in rec.renotes), "requested-during-notification",
+                  lambda: "request %d (finished=%s): results of notifyFinish() requested from inside its own notification callbacks %r" % (rec.idx, rec.finished, rec.renotes))
+        if rec.renotes:
             sim.probe("notify_requested_in_own_callback_fired")
     # (4) nothing after connectionLost
     sim.check("write-after-connection-lost", srv.t.writes_after_lost == 0, "transport", detail)
@@ -390,5 +419,5 @@ MUTANTS = [
     'CAUGHT http.py HTTPChannel.rawDataReceived: do not buffer a pipelined POST while a request is handled -> server-raised:drive:AttributeError',
     'SURVIVED (equivalent) http.py Request._cleanup: do not reset `self.notifications = []`: the finished request is removed from channel.requests, so nothing fires the list again',
     'CAUGHT (round 4) http.py HTTPChannel.requestDone: non-persistent branch calls loseConnection() BEFORE the finished request is removed from channel.requests (a transport that reports the loss inside loseConnection() makes the finished request fail) -> notify-failure-without-loss:errback',
-    'SURVIVED (outside the statement) http.py Request._cleanup/connectionLost: detach the notification list before firing (a notifyFinish() requested from inside a notification callback of the same request never fires): the callback runs after finish()/loss has taken effect, so this is a late request, which the unchanged tree leaves unfired as well when it is made one tick later',
+    'CAUGHT (round 4, second pass) http.py Request._cleanup/connectionLost: detach the notification list before firing (a notifyFinish() requested from inside a notification callback/errback of the same request, i.e. while the pass runs, never fires) -> notify-on-finish:requested-during-notification / notify-on-loss:requested-during-notification; first judged outside the statement, but the Deferred belongs to a request whose response finishes / connection is lost in that very pass; only requests made after the pass returned get no verdict (none are made)',
 ]
